@@ -146,6 +146,9 @@ class SetupActor:
             self.slm_op = op
         else:
             self.slm_op = None
+        if profile.get("declare_var_p") and rng.random() < profile["declare_var_p"]:
+            # a declared but unused variable: the sequence stays a regular one
+            self.queue.insert(rng.randint(0, len(self.queue)), {"op": "declare_variable", "name": "uv"})
 
     def runnable(self, snap: Snap) -> bool:
         return bool(self.queue)
